@@ -717,7 +717,7 @@ fn main() {
         spec,
         |jobs, _| {
             reg_pair_enum!(jobs; (1, 2), (2, 1), (3, 7), (5, 3), (6, 64));
-            reg_pair!(jobs, 4000; (1, 64), (7, 8), (31, 32), (63, 64), (64, 63), (65, 128), (127, 128), (128, 129), (129, 64), (190, 255), (255, 256), (256, 257), (320, 63), (535, 60));
+            reg_pair!(jobs, 4000; (0, 65), (128, 0), (1, 64), (7, 8), (31, 32), (63, 64), (64, 63), (65, 128), (127, 128), (128, 129), (129, 64), (190, 255), (255, 256), (256, 257), (320, 63), (535, 60));
         },
         |_| Map::new(),
     );
